@@ -84,7 +84,7 @@ def run_driver(mod, cases, tag, shards=None, timeout=3000, extra_env=None):
 def write_replay(pid, name, payload):
     d = os.path.join(VERIF, "replays")
     os.makedirs(d, exist_ok=True)
-    path = os.path.join(d, "%s_%s.json" % (pid, name))
+    path = os.path.join(d, "%s_%s%s.json" % (pid, name, os.environ.get("VERIF_REPLAY_SUFFIX", "")))
     json.dump(payload, open(path, "w"), indent=1, default=str)
     return path
 
